@@ -64,7 +64,8 @@ type Node struct {
 // UnmarshalJSON is just an adapter to json.Unmarshaler.
 // If you want better performance, use Searcher.GetByPath() directly
 func (self *Node) UnmarshalJSON(data []byte) (err error) {
-	*self = newRawNode(rt.Mem2Str(data), switchRawType(data[0]), false)
+	// json.Unmarshaler must copy the data it retains: the caller owns (and may reuse) the buffer
+	*self = newRawNode(string(data), switchRawType(data[0]), false)
 	return nil
 }
 
